@@ -918,14 +918,63 @@ def _scalar_never_indexes(facts, name):
     return seen
 
 
+def _jump_operand_flag(facts, f, cond, depth=3):
+    """is `cond` a boolean that is true exactly when the previous bytecode cell was OpCode::Jmp or OpCode::Jnt?
+    Every definition of the local is the constant false, a copy of such a local, or the constant true in a block reached only
+    through the Jmp / Jnt values of a switch on an OpCode discriminant."""
+    OPC = "marwood::vm::opcode::OpCode"
+    adt = facts.adts.get(OPC)
+    if adt is None:
+        return False
+    jv = {variant_index(adt, "Jmp"), variant_index(adt, "Jnt")}
+    p = op_place(cond)
+    if p is None or p["p"]:
+        return False
+
+    def ok_local(l, d):
+        if d < 0:
+            return False
+        defs = [x for x in f.defs().get(l, []) if x[2] != "partial"]
+        if not defs:
+            return False
+        for x in defs:
+            if x[2] != "assign":
+                return False
+            rv = x[3]["rv"]
+            if rv["k"] != "use":
+                return False
+            c = op_const(rv["a"])
+            if c is not None and c.get("ty") == "bool":
+                if c.get("int") in (0, False):
+                    continue
+                # constant true: only under the Jmp / Jnt targets of an OpCode switch
+                bb = x[0]
+                good = False
+                for sw in disc_switches(facts, f, OPC):
+                    tg = {t for v, t in sw["term"]["targets"] if v in jv}
+                    others = {t for v, t in sw["term"]["targets"] if v not in jv} | {sw["otherwise"]}
+                    if tg == {bb} and bb not in others and len([q for q in f.pred[bb] if q in f.reachable()]) == 1:
+                        good = True
+                if not good:
+                    return False
+                continue
+            q = op_place(rv["a"])
+            if q is None or q["p"] or not ok_local(q["l"], d - 1):
+                return False
+        return True
+    return ok_local(p["l"], depth)
+
+
 def r03k(ctx, rep, rule="R03k"):
     """references kept outside the cells: bytecode operands and Heap's own fields"""
     from ..shapes import dominating_guards
     facts = ctx["facts"]
     rep.rule(rule, "no reference escapes the collector's view: (1) Heap::mark_lambda hands every cell of a procedure's bytecode to "
-             "mark_vcell unconditionally — constants are operands of several instructions (MOV-immediate, PUSH-immediate, "
+             "mark_vcell — constants are operands of several instructions (MOV-immediate, PUSH-immediate, "
              "CLOSURE ...), so a marker that follows the operands of selected opcodes only frees the others while the "
-             "procedure is live; (2) every field of Heap whose type can hold a cell index is in a reviewed table that says how "
+             "procedure is live; the one cell it may skip is the operand of JMP / JNT (an offset encoded like a reference: "
+             "marking it pins whatever garbage cell has that index, with all that hangs off it, for as long as the procedure "
+             "lives), recognised by a flag that is set exactly on those two opcodes; (2) every field of Heap whose type can hold a cell index is in a reviewed table that says how "
              "it follows allocation and freeing — a cached index (say, of a shared '() cell) that is neither a root nor "
              "cleared by Heap::free dangles after the first collection that finds the cell unreachable.")
     f = need(rep, rule, facts, MARK_LAMBDA)
@@ -945,6 +994,9 @@ def r03k(ctx, rep, rule="R03k"):
                     extra = [x for x in conds if not (f.origin(f.blocks[x[0]]["term"]["op"])[0] == "rv" and
                                                       f.origin(f.blocks[x[0]]["term"]["op"])[1]["rv"]["k"] == "disc" and
                                                       "Option" in f.origin(f.blocks[x[0]]["term"]["op"])[1]["rv"]["place"]["ty"])]
+                    # the one cell that is no reference although it is encoded like one: the operand of a jump. Skipping the
+                    # cell that follows an OpCode::Jmp / Jnt cell (a flag set exactly on those two opcodes, tested false) is sound.
+                    extra = [x for x in extra if not (x[1] == 0 and _jump_operand_flag(facts, f, f.blocks[x[0]]["term"]["op"]))]
                     if hit is None:
                         hit = (m, extra)
                     elif extra:
@@ -1075,6 +1127,36 @@ def r03n(ctx, rep, rule="R03n"):
         "release_unreferenced does not test both that the slot is Undefined and that the set lacks it (Undefined test: %s, contains: %s): "
         "a defined global, or one live code refers to, loses its binding" % (has_undef, has_contains), [rf.span])
 
+
+def r03p(ctx, rep, rule="R03p"):
+    """a jump offset is not a root"""
+    from ..shapes import dominating_guards
+    facts = ctx["facts"]
+    rep.rule(rule, "nothing that is not a reference keeps a cell alive: JMP and JNT carry their offset as a VCell::Ptr, and a marker that "
+             "hands it on like a reference keeps the cell whose index equals the offset — any garbage cell, with everything that "
+             "hangs off it — allocated for as long as the procedure lives, so that unreachable objects survive every collection. "
+             "In Heap::mark_lambda the call that marks a bytecode cell is guarded by the false edge of a flag that is set exactly "
+             "when the previous cell was OpCode::Jmp or OpCode::Jnt.")
+    f = need(rep, rule, facts, MARK_LAMBDA)
+    if f is None:
+        return
+    body = set()
+    for src, h in f.back_edges():
+        body |= (f.reach_from(h) & f.reach_back(src)) | {h, src}
+    marks = [bb for bb, t in f.calls() if callee(t) == MARK_VCELL and bb in body]
+    if not marks:
+        rep.anchor_lost(rule, "mark_vcell call in a loop of mark_lambda")
+        return
+    # the bytecode loop is the first one (bc, then args, then the environment map)
+    first = min(marks)
+    ok = any(tk == 0 and _jump_operand_flag(facts, f, c) for sb, c, tk, tt in dominating_guards(f, first))
+    key = rule + "|mark_lambda|jump-operand-skipped"
+    (rep.ok if ok else rep.fail)(
+        rule, key, "mark_lambda leaves the operand of JMP / JNT alone" if ok else
+        "mark_lambda hands the operand of JMP / JNT to mark_vcell like every other bytecode cell: the cell whose index equals the "
+        "offset, and the dead structure behind it, stay allocated after every collection while the procedure is live",
+        [f.blocks[first]["term"]["loc"]])
+
 def run(ctx, rep):
     r03a(ctx, rep)
     r03b(ctx, rep)
@@ -1087,6 +1169,7 @@ def run(ctx, rep):
     r03j(ctx, rep)
     r03k(ctx, rep)
     r03n(ctx, rep)
+    r03p(ctx, rep)
     from . import runloop
     runloop.r07i(ctx, rep, rule="R03m")
     from . import C18
